@@ -23,6 +23,8 @@ def judge(case):
         sg = harness.load()
         viol += gradcheck.check_interleaved(runner, arrays, cat.diff_idx(case, arrays), name, info["rows"],
                                             module_cls=sg.nn.Module if case.get("form", "fn") != "fn" else None)
+    if info.get("accepted") and not viol and info.get("rows") is not None:
+        viol += gradcheck.check_twice(runner, arrays, cat.diff_idx(case, arrays), name, info["rows"])
     nt = bool(info.get("accepted") and info.get("nonzero"))
     return {"nontrivial": nt, "outcome": "accepted" if info.get("accepted") else "rejected", "violations": viol}
 
